@@ -116,9 +116,13 @@ EstShrink(c, xs, j) ==     \* f = 0:  min(u(1-eps), max((d eta + S_j)/(d+j-1), m
         m == Mu(c, j, S)
         w == RDiv(RAdd(RMul(RNat(c.d), c.eta), S), RNat(c.d + j - 1))
     IN  RMin(RMul(c.u, OneMinusEps), RMax(w, RAdd(m, c.cs[j])))
-EstOptComp(c) ==           \* (1 - u(1-p2))/(2-2u) + u(1-p2) - 1/2
+\* (1 - u(1-p2))/(2-2u) + u(1-p2) - 1/2, but never below the null conditional mean of the draw it is applied to
+\* (since the repair of DESIGN.md 9.3: the bare formula is a constant, which a finite population's null mean can
+\* overtake - and which is negative for very small margins - and ALPHA is no supermartingale for eta < mu)
+EstOptCompFormula(c) ==
     LET a == RMul(c.u, RSub(One, c.p2))
     IN  RSub(RAdd(RDiv(RSub(One, a), RSub(RNat(2), RMul(RNat(2), c.u))), a), Half)
+EstOptComp(c, xs, j) == RMax(EstOptCompFormula(c), Mu(c, j, PSum(xs, j - 1)))
 BetAgrapa(c, xs, j) ==     \* c_grapa_grow = 0
     LET m == Mu(c, j, PSum(xs, j - 1)) IN
     IF j = 1 THEN (IF RIsZero(m) THEN "undef" ELSE RMax(Zero, RMin(RDiv(c.cg, m), c.lam)))
@@ -130,7 +134,7 @@ BetAgrapa(c, xs, j) ==     \* c_grapa_grow = 0
 Est(c, xs, j) ==
     CASE c.estim = "fixed"    -> EstFixed(c, xs, j)
       [] c.estim = "shrink"   -> EstShrink(c, xs, j)
-      [] c.estim = "optcomp"  -> EstOptComp(c)
+      [] c.estim = "optcomp"  -> EstOptComp(c, xs, j)
       [] c.estim = "fixedbet" -> c.lam
       [] c.estim = "agrapa"   -> BetAgrapa(c, xs, j)
       [] OTHER                -> "undef"
